@@ -19,20 +19,44 @@ from .tableops import FuncView, TOp
 
 # ----------------------------------------------------------------------------- helpers
 class _Mem:
-    """A membership atom: `k in T`, `k not in T`, or `x is None` / `x is not None` with x = T.get(k)."""
+    """A membership atom: `k in T`, `k not in T`, or `x is D` / `x is not D` with x = T.get(k[, D]) (D: None or a
+    sentinel).  `test` is the (alias-inlined) test expression the atom belongs to."""
 
-    def __init__(self, ifnode, atom, key, holds_in_when_true: bool):
+    def __init__(self, ifnode, atom, key, holds_in_when_true: bool, test=None):
         self.ifnode = ifnode
         self.atom = atom
         self.key = key
         self.in_when_true = holds_in_when_true  # the atom being True means "k in T"
+        self.test = test if test is not None else ifnode.test
 
     def absent_branch(self):
         """label of the out-edge of the test on which `k not in T` is known"""
-        return _implied_branch(self.ifnode.test, self.atom, not self.in_when_true)
+        return _implied_branch(self.test, self.atom, not self.in_when_true)
 
     def present_branch(self):
-        return _implied_branch(self.ifnode.test, self.atom, self.in_when_true)
+        return _implied_branch(self.test, self.atom, self.in_when_true)
+
+
+def _get_lookup(v: FuncView, name_node, test_id=None):
+    """(def, table expr, key expr, default text) when the value of the local `name_node` at the test comes from
+    `T.get(k[, D])`: the one definition that dominates the test with no other definition in between"""
+    defs = [d for d in walk_no_nested(v.fi.node) if isinstance(d, ast.Assign) and len(d.targets) == 1 and isinstance(d.targets[0], ast.Name) and d.targets[0].id == name_node.id]
+    cands = []
+    for d in defs:
+        c = d.value
+        if not (isinstance(c, ast.Call) and isinstance(c.func, ast.Attribute) and c.func.attr == "get" and 1 <= len(c.args) <= 2 and not c.keywords):
+            continue
+        did = _cfgid(v, d)
+        if test_id is not None:
+            if not v.cfg.dominates(did, test_id):
+                continue
+            others = [_cfgid(v, o) for o in defs if o is not d]
+            if any(v.cfg.reachable(did, oid) and v.cfg.reachable(oid, test_id) and oid != test_id and not v.cfg.dominates(oid, did) for oid in others):
+                continue
+        elif len(defs) != 1:
+            continue
+        cands.append((d, c.func.value, c.args[0], norm(c.args[1]) if len(c.args) == 2 else "None"))
+    return cands[0] if len(cands) == 1 else None
 
 
 def _membership_atoms(v: FuncView, table: str):
@@ -40,20 +64,30 @@ def _membership_atoms(v: FuncView, table: str):
     for n in walk_no_nested(v.fi.node):
         if not isinstance(n, (ast.If, ast.While)):
             continue
-        for a, _ in _atoms(n.test, True):
+        test = n.test
+        # a boolean local that names a membership test: `known = k in T; if not known: ...`
+        if any(isinstance(x, ast.Name) for x in ast.walk(test)):
+            names = [x for x in ast.walk(test) if isinstance(x, ast.Name) and isinstance(x.ctx, ast.Load)]
+            if any(isinstance(v.resolve(x), (ast.Compare, ast.BoolOp, ast.UnaryOp)) for x in names):
+                test = v.inline(test, depth=2)
+        for a, _ in _atoms(test, True):
             if isinstance(a, ast.Compare) and len(a.ops) == 1:
                 op, l, r = a.ops[0], a.left, a.comparators[0]
                 if isinstance(op, (ast.In, ast.NotIn)):
                     c = [t for t in v.tables_of(r) if t[1] == table and not t[2]]
                     if c:
-                        out.append(_Mem(n, a, l, isinstance(op, ast.In)))
-                elif isinstance(op, (ast.Is, ast.IsNot)) and isinstance(r, ast.Constant) and r.value is None and isinstance(l, ast.Name):
-                    # x = T.get(k) ... if x is None:
-                    for d in walk_no_nested(v.fi.node):
-                        if isinstance(d, ast.Assign) and len(d.targets) == 1 and isinstance(d.targets[0], ast.Name) and d.targets[0].id == l.id and isinstance(d.value, ast.Call) and isinstance(d.value.func, ast.Attribute) and d.value.func.attr == "get" and len(d.value.args) == 1:
-                            c = [t for t in v.tables_of(d.value.func.value) if t[1] == table and not t[2]]
-                            if c and v.cfg.dominates(_cfgid(v, d), v.cfg.by_ast[id(n.test)]):
-                                out.append(_Mem(n, a, d.value.args[0], isinstance(op, ast.IsNot)))
+                        out.append(_Mem(n, a, l, isinstance(op, ast.In), test))
+                elif isinstance(op, (ast.Is, ast.IsNot)) and isinstance(getattr(l, "_orig", l), ast.Name) and isinstance(r, (ast.Constant, ast.Name)):
+                    # x = T.get(k[, D]) ... if x is D:
+                    lk = _get_lookup(v, getattr(l, "_orig", l), v.cfg.by_ast[id(n.test)])
+                    if lk is None:
+                        continue
+                    d, texpr, key, dflt = lk
+                    if norm(r) != dflt:
+                        continue
+                    c = [t for t in v.tables_of(texpr) if t[1] == table and not t[2]]
+                    if c and v.cfg.dominates(_cfgid(v, d), v.cfg.by_ast[id(n.test)]):
+                        out.append(_Mem(n, a, key, isinstance(op, ast.IsNot), test))
     return out
 
 
@@ -250,14 +284,19 @@ def check_add_edge(ctx, res: Result, cls: str):
             res.check(o.op == "store", "P-ACCUM", f, norm(o.node), "fresh", "the weight of a new record is accumulated instead of set", _where(v, o.node))
             continue
         outside.append(o)
-        is_acc = o.op == "aug" and isinstance(o.node.op, ast.Add) and isinstance(o.value, ast.Name) and o.value.id == wparam
+        def from_weight(e):
+            """the value is the caller's weight (possibly through a local that defaults it: `1 if weight is None else weight`)"""
+            e = v.inline(e) if e is not None else None
+            return e is not None and any(isinstance(x, ast.Name) and x.id == wparam for x in ast.walk(e)) and not any(isinstance(x, ast.BinOp) for x in ast.walk(e))
+
+        is_acc = o.op == "aug" and isinstance(o.node.op, ast.Add) and from_weight(o.value)
         if not is_acc and o.op == "store":
             val = o.value
             is_acc = (
                 isinstance(val, ast.BinOp)
                 and isinstance(val.op, ast.Add)
-                and any(isinstance(x, ast.Name) and x.id == wparam for x in (val.left, val.right))
-                and any(isinstance(x, ast.Subscript) and any(t[1] == "_weights" for t in v.tables_of(x.value)) for x in (val.left, val.right))
+                and any(from_weight(x) for x in (val.left, val.right))
+                and any(isinstance(v.inline(x), ast.Subscript) and any(t[1] == "_weights" for t in v.tables_of(v.inline(x).value)) for x in (val.left, val.right))
             )
         res.check(is_acc, "P-ACCUM", f, norm(o.node), "existing", "re-inserting an existing hyperedge must add the new weight to the stored one (`+= weight`)", _where(v, o.node))
         res.check(_under_flag(v, o.at, "_weighted", True), "P-ACCUM", f, norm(o.node), "weighted-only", "the weight of an existing record is changed although the hypergraph may be unweighted (re-insert must be idempotent)", _where(v, o.node))
@@ -347,7 +386,8 @@ def _under_flag(v: FuncView, node, flag: str, want: bool) -> bool:
     for n in walk_no_nested(v.fi.node):
         if isinstance(n, (ast.If,)):
             for atom, pos in _atoms(n.test, True):
-                if is_self_attr(atom, flag) or (isinstance(atom, ast.Call) and isinstance(atom.func, ast.Attribute) and atom.func.attr == "is_weighted" and flag == "_weighted"):
+                ra = v.resolve(atom) if isinstance(atom, ast.Name) else atom  # weighted = self._weighted; if weighted:
+                if is_self_attr(ra, flag) or (isinstance(ra, ast.Call) and isinstance(ra.func, ast.Attribute) and ra.func.attr == "is_weighted" and flag == "_weighted"):
                     lab = _implied_branch(n.test, atom, want)
                     if lab and v.cfg.branch_dominated(v.cfg.by_ast[id(n.test)], lab, nid):
                         return True
@@ -490,11 +530,33 @@ def _under_empty_test(v: FuncView, o: TOp) -> bool:
                 if isinstance(atom, ast.Compare) and len(atom.ops) == 1 and isinstance(atom.ops[0], ast.Eq):
                     l, r = atom.left, atom.comparators[0]
                     for a, b in ((l, r), (r, l)):
+                        if isinstance(a, ast.Name) and isinstance(b, ast.Dict) and not b.keys and _mirrors_entry(v, a.id, o):
+                            lab = _implied_branch(n.test, atom, True)
+                            if lab and v.cfg.branch_dominated(v.cfg.by_ast[id(n.test)], lab, oid):
+                                return True
+                        a = v.inline(a, depth=1) if isinstance(a, ast.Name) else a  # stored = T[node]; if stored == {}:
                         if isinstance(a, ast.Subscript) and (v.table_of(a.value) or (None, None))[1] == o.table and isinstance(b, ast.Dict) and not b.keys and o.key is not None and _same_expr(a.slice, o.key):
                             lab = _implied_branch(n.test, atom, True)
                             if lab and v.cfg.branch_dominated(v.cfg.by_ast[id(n.test)], lab, oid):
                                 return True
     return False
+
+
+def _mirrors_entry(v: FuncView, name: str, o: TOp) -> bool:
+    """every definition of the local `name` makes it equal to the table entry `o.table[o.key]`: it is read from the
+    entry, or it is the very object that is stored into the entry right there"""
+    defs = [d for d in walk_no_nested(v.fi.node) if isinstance(d, ast.Assign) and len(d.targets) == 1 and isinstance(d.targets[0], ast.Name) and d.targets[0].id == name]
+    if not defs or o.key is None:
+        return False
+    for d in defs:
+        val = d.value
+        if isinstance(val, ast.Subscript) and (v.table_of(val.value) or (None, None))[1] == o.table and _same_expr(val.slice, o.key):
+            continue
+        blk = v.parent.get(id(d))
+        stored = [x for x in v.ops() if x.table == o.table and x.op == "store" and not x.elem_level and isinstance(x.value, ast.Name) and x.value.id == name and x.key is not None and _same_expr(x.key, o.key) and v.parent.get(id(x.at)) is blk]
+        if not stored:
+            return False
+    return True
 
 
 def check_remove_node(ctx, res: Result, cls: str):
